@@ -139,8 +139,8 @@ static void case_R (char *p) {
 }
 
 static const int subst_vals[6] = {0x00, 0x01, 0x1f, 0x80, 0xe0, 0xff};
-static int fork_each_mut;          /* set when a whole M case died: isolate every mutation */
-static const char *mut_errfile;
+static int iso_mode, iso_fd;      /* set when a whole M case died: report before/after every mutation */
+static long mut_skip, mut_index;
 static void summarise_err (const char *errfile, char *msg, size_t msz) {
   char l2[2000]; FILE *f = fopen (errfile, "r");
   msg[0] = 0;
@@ -156,37 +156,33 @@ static void summarise_err (const char *errfile, char *msg, size_t msz) {
 }
 static void try_mut (long id, const char *kind, long pos, int val, const uint8_t *s, size_t n, const uint8_t *in, long nin,
                      long *nmut, long *nacc) {
-  int ok, eq = 0;
+  int ok, eq;
+  char t[160];
   (*nmut)++;
-  if (fork_each_mut) {
-    int st; pid_t pid = fork ();
-    if (pid == 0) {
-      int fd = open (mut_errfile, O_WRONLY | O_CREAT | O_TRUNC, 0600); if (fd >= 0) { dup2 (fd, 2); close (fd); }
-      ok = do_decode (s, n, 0x00);
-      _exit (!ok ? 0 : wr_b.len == (size_t) nin && (nin == 0 || memcmp (wr_b.p, in, nin) == 0) ? 11 : 10);
-    }
-    waitpid (pid, &st, 0);
-    if (WIFEXITED (st) && (WEXITSTATUS (st) == 0 || WEXITSTATUS (st) == 10 || WEXITSTATUS (st) == 11)) {
-      ok = WEXITSTATUS (st) != 0; eq = WEXITSTATUS (st) == 11;
-    } else {
-      char msg[400];
-      summarise_err (mut_errfile, msg, sizeof msg);
-      outf ("MCRASH %ld %s %ld %d %s\n", id, kind, pos, val, msg);
-      return;
-    }
-  } else {
-    ok = do_decode (s, n, 0x00);
-    eq = ok && wr_b.len == (size_t) nin && (nin == 0 || memcmp (wr_b.p, in, nin) == 0);
-  }
-  if (ok) { (*nacc)++; outf ("ACC %ld %s %ld %d %d\n", id, kind, pos, val, eq); }
+  if (mut_index++ < mut_skip) return;
+  if (iso_mode) { int k = snprintf (t, sizeof t, "P %s %ld %d\n", kind, pos, val); if (write (iso_fd, t, k) != k) _exit (4); }
+  ok = do_decode (s, n, 0x00);
+  eq = ok && wr_b.len == (size_t) nin && (nin == 0 || memcmp (wr_b.p, in, nin) == 0);
+  if (ok) (*nacc)++;
+  if (iso_mode) {
+    int k = ok ? snprintf (t, sizeof t, "ACC %ld %s %ld %d %d\nQ\n", id, kind, pos, val, eq) : snprintf (t, sizeof t, "Q\n");
+    if (write (iso_fd, t, k) != k) _exit (4);
+  } else if (ok)
+    outf ("ACC %ld %s %ld %d %d\n", id, kind, pos, val, eq);
 }
 static void case_M (char *p) {
   long id = next_num (&p), stride = next_num (&p), n = next_num (&p), nmut = 0, nacc = 0;
+  mut_index = 0;
   uint8_t *in = read_bytes (&p, n), *m;
   bytes_t enc = {0};
   int eok = do_encode (in, n, &enc), dok = do_decode (enc.p, enc.len, 0xA5);
   int eq = wr_b.len == (size_t) n && (n == 0 || memcmp (wr_b.p, in, n) == 0);
   if (!eok || !dok || !eq) outf ("FAIL %ld roundtrip: encode ok=%d decode ok=%d equal=%d\n", id, eok, dok, eq);
+  if (iso_mode && mut_skip == 0) {
+    outf ("MUTENC %ld ", id); out_hex (enc.p, enc.len); outf ("\n");
+    for (size_t off = 0; off < res_len;) { ssize_t w = write (iso_fd, res + off, res_len - off); if (w <= 0) _exit (4); off += w; }
+    res_len = 0;
+  }
   m = malloc (enc.len + 2);
   for (size_t i = 0; i <= enc.len; i++) {
     int sel = stride <= 1 || i % stride == 0 || i < 64 || i + 64 >= enc.len;
@@ -196,7 +192,9 @@ static void case_M (char *p) {
       memcpy (m, enc.p, enc.len);
       for (int k = 0; k < 6; k++)
         if (subst_vals[k] != enc.p[i]) { m[i] = subst_vals[k]; try_mut (id, "subst", i, subst_vals[k], m, enc.len, in, n, &nmut, &nacc); }
-      m[i] = enc.p[i] ^ 0x04; try_mut (id, "subst", i, m[i], m, enc.len, in, n, &nmut, &nacc);
+      m[i] = enc.p[i] ^ 0x04;
+      if (m[i] != 0x00 && m[i] != 0x01 && m[i] != 0x1f && m[i] != 0x80 && m[i] != 0xe0 && m[i] != 0xff)
+        try_mut (id, "subst", i, m[i], m, enc.len, in, n, &nmut, &nacc);
     } else {
       memcpy (m, enc.p, enc.len);
       m[enc.len] = 0; try_mut (id, "ext", i, 0, m, enc.len + 1, in, n, &nmut, &nacc);
@@ -253,6 +251,52 @@ static size_t run_chunk (size_t lo, size_t hi, const char *errfile) {
   }
 }
 
+#define ISO_MAX_CRASHES 16
+/* an M line whose child died: restart it after every dying mutation, each restart skips what is already known */
+static void run_iso (size_t c, const char *errfile, long *ncrash) {
+  long skip = 0, id = strtol (lines[c] + 1, NULL, 10);
+  for (int round = 0; round <= ISO_MAX_CRASHES; round++) {
+    int pfd[2], st; pid_t pid; char buf[65536]; bytes_t got = {0}; ssize_t r; long nq = 0; char lastp[200] = "";
+    if (pipe (pfd) != 0) { perror ("pipe"); exit (3); }
+    fflush (stdout);
+    pid = fork ();
+    if (pid < 0) { perror ("fork"); exit (3); }
+    if (pid == 0) {
+      int fd = open (errfile, O_WRONLY | O_CREAT | O_TRUNC, 0600);
+      close (pfd[0]);
+      if (fd >= 0) { dup2 (fd, 2); close (fd); }
+      iso_mode = 1; iso_fd = pfd[1]; mut_skip = skip; mut_index = 0; res_len = 0;
+      run_line (lines[c]);
+      for (size_t off = 0; off < res_len;) { ssize_t w = write (pfd[1], res + off, res_len - off); if (w <= 0) _exit (4); off += w; }
+      _exit (0);
+    }
+    close (pfd[1]);
+    while ((r = read (pfd[0], buf, sizeof buf)) > 0) b_push (&got, buf, r);
+    close (pfd[0]);
+    waitpid (pid, &st, 0);
+    b_push (&got, "", 1);
+    for (char *l = (char *) got.p, *e; l != NULL && *l; l = e) {
+      e = strchr (l, '\n'); if (e != NULL) *e++ = 0;
+      if (l[0] == 'P' && l[1] == ' ') snprintf (lastp, sizeof lastp, "%s", l + 2);
+      else if (l[0] == 'Q' && l[1] == 0) { nq++; lastp[0] = 0; }
+      else if (WIFEXITED (st) && WEXITSTATUS (st) == 0) printf ("%s\n", l);
+      else if (strncmp (l, "ACC ", 4) == 0 || strncmp (l, "MUTENC ", 7) == 0) printf ("%s\n", l);
+    }
+    free (got.p);
+    if (WIFEXITED (st) && WEXITSTATUS (st) == 0) return;
+    if (lastp[0] == 0) {          /* died outside a mutation (encoder, clean round trip) */
+      char msg[400]; summarise_err (errfile, msg, sizeof msg);
+      (*ncrash)++; printf ("CRASH %ld rc=1 %s\n", id, msg);
+      return;
+    } else {
+      char msg[400]; summarise_err (errfile, msg, sizeof msg);
+      printf ("MCRASH %ld %s %s\n", id, lastp, msg);
+      skip += nq + 1;
+    }
+  }
+  printf ("MCAPPED %ld %ld\n", id, skip);   /* too many dying mutations: the rest of this input is not explored */
+}
+
 int main (int argc, char **argv) {
   size_t cap = 0, chunk = argc > 1 ? (size_t) atol (argv[1]) : 256;
   char *line = NULL; size_t lcap = 0; ssize_t len;
@@ -272,19 +316,12 @@ int main (int argc, char **argv) {
     size_t hi = lo + chunk < nlines ? lo + chunk : nlines, done = run_chunk (lo, hi, NULL), c = lo + done;
     if (done == hi - lo) { lo = hi; continue; }
     /* line c killed the child: run it alone, keeping the sanitizer report */
-    if (run_chunk (c, c + 1, errfile) != 1) {
-      size_t ok1 = 0;
-      if (lines[c][0] == 'M') {      /* isolate the mutation(s) that kill the decoder */
-        fork_each_mut = 1; mut_errfile = errfile;
-        ok1 = run_chunk (c, c + 1, NULL);
-        fork_each_mut = 0;
-      }
-      if (ok1 != 1) {
-        char msg[400];
-        summarise_err (errfile, msg, sizeof msg);
-        ncrash++;
-        printf ("CRASH %ld rc=1 %s\n", strtol (lines[c] + 1, NULL, 10), msg);
-      }
+    if (lines[c][0] == 'M') run_iso (c, errfile, &ncrash);
+    else if (run_chunk (c, c + 1, errfile) != 1) {
+      char msg[400];
+      summarise_err (errfile, msg, sizeof msg);
+      ncrash++;
+      printf ("CRASH %ld rc=1 %s\n", strtol (lines[c] + 1, NULL, 10), msg);
     }
     lo = c + 1;
   }
